@@ -17,6 +17,19 @@ sys.path.insert(0, os.path.join(os.path.dirname(HERE), "C01"))
 import fscommon  # noqa: E402
 
 LEVEL = "exploration"
+
+# The explorer reports the hash query as ".../query-C14:hash"; fscommon.owner() looks for a last signature component that STARTS
+# with "C14:" and would hand these reports to C01.  Only this process is affected by the replacement below.
+_fs_owner = fscommon.owner
+
+
+def _owner(sig):
+    if "C14:" in sig.split("/")[-1]:
+        return "C14"
+    return _fs_owner(sig)
+
+
+fscommon.owner = _owner
 SRC = os.path.join(HERE, "harness.cpp")
 
 # every AddressSanitizer report must reach the harness (the default de-duplicates reports by program counter, which would make
@@ -57,30 +70,33 @@ def plan(tier):
         jobs.append(("c14-O1-asan", ["--part", "guard", "--lmax", "39"], True))
         jobs.append(("c14-O1-asan", ["--part", "fs"], True))
         return jobs
-    # thorough
-    n = 14
-    for k in range(n):   # all 256^4 four-byte keys, value only (no sanitizer), two seeds, offsets 0 and 1
-        jobs.append(("c14-O2-nosan", ["--part", "full", "--len", "4", "--pairs", "1", "--two-seeds", "1", "--placements", "R", "--fills", "255",
-                                      "--aligns", "0,1", "--shard", str(k), str(n)], True))
-    for k in range(n):   # all 256^3 three-byte keys with every dimension
-        jobs.append(("c14-O1-asan", ["--part", "full", "--len", "3", "--pairs", "1", "--shard", str(k), str(n)], True))
+    # thorough (most informative parts first: a deadline then cuts the big exhaustive-content sweeps, not the structured part)
+    jobs.append(("c14-O1-asan", ["--part", "guard", "--lmax", "71", "--wide-seeds", "1"], True))
+    jobs.append(("c14-O1-asan", ["--part", "fs"], True))
     n = 28
     for k in range(n):
         jobs.append(("c14-O1-asan", ["--part", "main", "--lmax", "71", "--pairs", "1", "--wide-seeds", "1", "--shard", str(k), str(n)], True))
-    jobs.append(("c14-O1-asan", ["--part", "guard", "--lmax", "71", "--wide-seeds", "1"], True))
-    jobs.append(("c14-O1-asan", ["--part", "fs"], True))
+    n = 14
+    for k in range(n):   # all 256^3 three-byte keys with every dimension
+        jobs.append(("c14-O1-asan", ["--part", "full", "--len", "3", "--pairs", "1", "--shard", str(k), str(n)], True))
     for tag in ("c14-O2-asan", "c14-O0-asan", "c14-clang-O1-asan"):
         for k in range(2):
             jobs.append((tag, ["--part", "main", "--lmax", "39", "--shard", str(k), "2"], False))
         jobs.append((tag, ["--part", "guard", "--lmax", "39"], False))
         jobs.append((tag, ["--part", "fs"], False))
+    for k in range(n):   # all 256^4 four-byte keys, value only (no sanitizer), two seeds, offsets 0 and 1
+        jobs.append(("c14-O2-nosan", ["--part", "full", "--len", "4", "--pairs", "1", "--two-seeds", "1", "--placements", "R", "--fills", "255",
+                                      "--aligns", "0,1", "--shard", str(k), str(n)], True))
     return jobs
 
 
 def _sort_key(v):
-    a = v.get("args") or []
-    # shortest / first case of every signature first, so that the reported counterexample does not depend on scheduling
-    return (v["sig"], len(a[-1]) if a else 0, [str(x) for x in a])
+    a = [str(x) for x in (v.get("args") or [])]
+    # the shortest / first case of every signature first (main part before guard pages before other builds), so that the
+    # counterexample that gets reported does not depend on scheduling
+    rank = {"--one": 0, "--guard-one": 1, "--fs-one": 2}.get(a[0] if a else "", 3)
+    size = len(a[-1].strip("-")) if rank in (0, 2) else (int(a[2]) if rank == 1 else 0)
+    return (v["sig"], 0 if v.get("harness") == "c14-O1-asan" else 1, rank, size, a)
 
 
 def run(ctx):
@@ -108,7 +124,11 @@ def run(ctx):
 
     def fs_explorer():
         sub = vlib.Ctx(ctx.pid, ctx.tier, ctx.level, ctx.seed)
-        sub.deadline = ctx.deadline
+        # quick tier: keep the whole check inside ~6 minutes even when the four explorer builds start from a cold cache on a busy machine
+        sub.deadline = min(ctx.deadline, ctx.t0 + 330) if ctx.tier == "quick" else ctx.deadline
+        if os.environ.get("C14_SKIP_EXPLORER"):   # development aid only; the run is then marked as not exhaustive
+            sub.cap("fixed-string explorer part skipped because C14_SKIP_EXPLORER is set")
+            return sub
         fscommon.run(sub, "C14")
         return sub
 
@@ -118,17 +138,20 @@ def run(ctx):
     own_samples = {}
     for (tag, args, primary), sub in zip(jobs, subs):
         for k, v in sub.stats.items():
-            if not primary and k in ("evaluations", "distinct_nontrivial"):
-                if k == "evaluations":
-                    ctx.stat("evaluations_on_other_builds", v)
-                continue
-            ctx.stat(k, v)
-        for k, v in sub.maxes.items():
-            ctx.smax(k, v)
+            if primary or k == "harness_runs":
+                ctx.stat(k, v)
+            elif k == "evaluations":
+                ctx.stat("evaluations_on_other_builds", v)
+            elif k != "distinct_nontrivial":   # the same cases again on another build are not distinct cases
+                ctx.stat("other_builds_" + k, v)
+        if primary:
+            for k, v in sub.maxes.items():
+                ctx.smax(k, v)
         for n in sub.notes:
             ctx.note(n)
         for c in sub.caps:
-            ctx.cap(c)
+            if c not in ctx.caps:
+                ctx.cap(c)
         if primary:
             own_samples.setdefault(args[1], []).extend(sub.samples)
         ctx.viols += sub.viols
@@ -146,7 +169,7 @@ def run(ctx):
     for k, v in fs.maxes.items():
         ctx.smax("fixed_string_explorer_" + k, v)
     for n in fs.notes:
-        ctx.note("fixed-string explorer: " + n)
+        ctx.note("fixed-string explorer: " + (n if len(n) <= 400 else n[:400] + " ..."))
     for c in fs.caps:
         ctx.cap("fixed-string explorer: " + c)
     for s in fs.samples[:2]:
